@@ -29,7 +29,7 @@ class ShortLinkControl(BitsInterface):
         self.crc_8bit: bitarray = (
             crc_8bit[:8]
             if isinstance(crc_8bit, bitarray)
-            else int2ba(crc_8bit, length=8)
+            else int2ba(crc_8bit, length=8, endian="little")
         )
         self.ts1_activity_id: Optional[ActivityID] = ts1_activity_id
         self.ts1_address: Optional[bitarray] = ts1_address
@@ -42,7 +42,11 @@ class ShortLinkControl(BitsInterface):
             )
             self.crc_ok: bool = True
         else:
-            self.crc_ok: bool = CRC8.check(self.as_bits()[:28], ba2int(self.crc_8bit))
+            # the 8 CRC bits are kept in transmission order, least significant bit first
+            self.crc_ok: bool = CRC8.check(
+                self.as_bits()[:28],
+                ba2int(bitarray(self.crc_8bit.tolist(), endian="little")),
+            )
 
     def __repr__(self) -> str:
         descr: str = f"[{self.slco}]"
